@@ -168,28 +168,32 @@ def sign_truth(tu, cond, ppath):
     return out
 
 
-def count_paths(tu, g, events, ppath, signs0):
-    """Explore the CFG with state (number of dispatch events so far capped at 2, possible signs of the count).
-    events: {stmt id: label}.  Returns (exits {(count, signs)}, seen {stmt id: set of signs at the event})."""
+def count_paths(tu, g, events, ppath, signs0, truth_fn=None):
+    """Explore the CFG with state (number of dispatch events so far capped at 2, possible signs of the count, passed a
+    branch whose relation to the count is unknown).  events: {stmt id: label}.  truth_fn(cond) -> {sign: truths} | None
+    decides conditions that speak about the count indirectly.
+    Returns (exits {(count, signs, unk)}, seen {stmt id: set of signs at the event})."""
     seen = {}
 
     def transfer(blk, idx, e, st):
         if e[0] == 'S' and e[1] in events:
             seen.setdefault(e[1], set()).update(st[1])
-            return [(min(2, st[0] + 1), st[1])]
+            return [(min(2, st[0] + 1), st[1], st[2])]
         return [st]
 
     def refine(blk, si, st):
         if blk.cond is None or len(blk.succ) != 2 or ppath is None:
             return [st]
         tr = sign_truth(tu, tu.node(blk.cond), ppath)
+        if tr is None and truth_fn is not None:
+            tr = truth_fn(tu.node(blk.cond))
         if tr is None:
-            return [st]
+            return [(st[0], st[1], True)]      # could be a guard on the count in a form that is not understood
         want = (si == 0)
         keep = frozenset(s for s in st[1] if want in tr[s])
-        return [(st[0], keep)] if keep else []
+        return [(st[0], keep, st[2])] if keep else []
 
-    res = g.explore([(0, frozenset(signs0))], transfer, refine)
+    res = g.explore([(0, frozenset(signs0), False)], transfer, refine)
     return {st for st, via in res.exits}, seen
 
 
@@ -197,11 +201,16 @@ def signs_of_type(ct):
     return 'NZP' if is_signed(ct) else 'ZP'
 
 
-def once_verdict(exits):
-    """(kind, text) problems from the exit states of count_paths"""
+def once_verdict(exits, und=None):
+    """(kind, text) problems from the exit states of count_paths; a skipped dispatch behind a branch condition that was
+    not understood is not a finding: it is appended to `und` (undecided) instead"""
     probs = []
-    for cnt, signs in sorted(exits, key=lambda x: (x[0], sorted(x[1]))):
+    for cnt, signs, unk in sorted(exits, key=lambda x: (x[0], sorted(x[1]), x[2])):
         if cnt == 0 and 'P' in signs:
+            if unk:
+                if und is not None:
+                    und.append('a path skips the dispatch behind a branch condition whose relation to the count is not recognised')
+                continue
             probs.append(('never', 'a path returns without handing the range to the backend although the count can be positive'))
         elif cnt >= 2:
             probs.append(('twice', 'a path hands the range to the backend more than once'))
@@ -224,6 +233,7 @@ class LoopInfo:
         self.bound_node = None
         self.rel = None
         self.call = None
+        self.calls = []        # every call of the functor with the loop index inside the loop
         self.arg = None
         self.cond_ops = None   # (i operand expr, bound operand expr) of the comparison
         self.header = None
@@ -281,7 +291,8 @@ def analyse_counting_loop(tu, f, g, fun_paths, exp_start, exp_bound, allow_ne=Fa
         return li
     L = natural_loop(g, H.id)
     cond = tu.node(H.cond)
-    a = bool_atom(tu, cond)
+    denv = make_env(tu, local_defs(tu, [f]))
+    a = bool_atom(tu, cond, denv)
     if a is None:
         li.undecided.append('loop condition `%s` is not a comparison' % tu.show(cond))
         return li
@@ -330,7 +341,7 @@ def analyse_counting_loop(tu, f, g, fun_paths, exp_start, exp_bound, allow_ne=Fa
     refs = refs_to(tu, f, ipath[1])
     if refs:
         li.itype = clean_type(tu.sd(refs[0]).get('ct')) or li.itype
-    start = lin(tu, vks[0])
+    start = lin(tu, vks[0], denv)
     for b, i, n in g.stmts():
         if n.get('kind') == 'DeclStmt' and any(k_.get('id') == ipath[1] for k_ in tu.kids(n)):
             li.decl_stmt = n['id']
@@ -417,6 +428,7 @@ def analyse_counting_loop(tu, f, g, fun_paths, exp_start, exp_bound, allow_ne=Fa
                 ap = access_path(tu, args[0])
                 if ap == ipath:
                     calls[n['id']] = n
+                    li.calls.append(n)
                     li.call = n
                     li.arg = args[0]
                 else:
@@ -665,12 +677,12 @@ def check_impl(ctx, tu, f, cfgname, chains):
     if li is not None:
         kinds.add('loop')
         und += li.undecided
-        for k, t, n in li.problems:
+        for k, t, n in ([] if li.undecided else li.problems):
             problems.append(('loop-' + k, t, n))
         if li.decl_stmt:
             events[li.decl_stmt] = 'loop'
-        if li.call is not None:
-            recognised.add(li.call['id'])
+        for c_ in li.calls:
+            recognised.add(c_['id'])
     # ---- OpenMP directive
     omp = [n for n in fn_stmts(tu, f) if n.get('kind', '').startswith('OMP') and n.get('kind', '').endswith('Directive')]
     if omp:
@@ -697,18 +709,21 @@ def check_impl(ctx, tu, f, cfgname, chains):
             else:
                 und.append('OpenMP directive %s is not a recognised form' % dk)
     if not kinds & {'tbb', 'internal', 'loop'}:
-        ctx.violation(R1, inst, 'no backend dispatch found: the body is never invoked', loc, key=key(R1, 'no-dispatch'))
+        if functor_uses(tu, f, pf, recognised):
+            ctx.undecided(R1, inst, 'no recognised backend dispatch; the functor is handed to something that is not understood', loc)
+        else:
+            ctx.violation(R1, inst, 'no backend dispatch found: the body is never invoked', loc, key=key(R1, 'no-dispatch'))
         return
     stray = functor_uses(tu, f, pf, recognised)
     if stray:
         und.append('functor parameter is used outside the recognised dispatch at %s' % ', '.join(stray))
     # ---- every path dispatches exactly once
     exits, seen = count_paths(tu, g, events, ppath, signs_of_type(nct))
-    for k, t in once_verdict(exits):
+    for k, t in once_verdict(exits, und):
         problems.append((k, t, None))
     for u in sorted(set(und)):
         ctx.undecided(R1, inst, u, loc)
-    if problems:
+    if problems and not und:
         for k, t, n in problems:
             ctx.violation(R1, inst, t, tu.loc(n) if n is not None else loc, key=key(R1, k))
     elif not und:
@@ -795,18 +810,21 @@ def check_forwarder(ctx, tu, f, cfgname, callee_q, rule, fn_name, what):
             if obj_path(tu, args[1]) != fpath:
                 und.append('functor argument of %s is not the functor parameter' % what)
     if not events:
-        ctx.violation(rule, inst, '%s is never called: the body is never invoked' % what, loc,
-                      key='%s|%s|%s|no-dispatch' % (rule, file, fn_name))
+        if functor_uses(tu, f, pf, set()):
+            ctx.undecided(rule, inst, '%s is not called directly; the functor is handed to something that is not understood' % what, loc)
+        else:
+            ctx.violation(rule, inst, '%s is never called: the body is never invoked' % what, loc,
+                          key='%s|%s|%s|no-dispatch' % (rule, file, fn_name))
         return
     stray = functor_uses(tu, f, pf, set(events))
     if stray:
         und.append('functor parameter is used outside the call of %s at %s' % (what, ', '.join(stray)))
     exits, seen = count_paths(tu, g, events, ppath, signs_of_type(pn['ct']))
-    for k, t in once_verdict(exits):
+    for k, t in once_verdict(exits, und):
         bad.append((k, t, None))
     for u in sorted(set(und)):
         ctx.undecided(rule, inst, u, loc)
-    for k, t, n in bad:
+    for k, t, n in ([] if und else bad):
         ctx.violation(rule, inst, t, tu.loc(n) if n is not None else loc, key='%s|%s|%s|%s' % (rule, file, fn_name, k))
     if not bad and not und:
         ctx.ok(rule, inst, 'forwards count and functor unchanged to %s exactly once' % what, loc)
@@ -822,13 +840,26 @@ class Store:
         self.copies = dict(copies or {})   # access path of a struct -> (source path, Store snapshot)
         self.conds = list(conds or [])     # cmp atoms known to hold
         self.events = list(events or [])
+        self.havoc = {}                    # access path -> token: everything below was changed by an unknown call
 
     def clone(self):
-        return Store(self.tu, self.vals, self.copies, self.conds, self.events)
+        c = Store(self.tu, self.vals, self.copies, self.conds, self.events)
+        c.havoc = dict(self.havoc)
+        return c
+
+    def clobber(self, p, token):
+        for k in [k for k in self.vals if k[:len(p)] == p]:
+            del self.vals[k]
+        for k in [k for k in self.copies if k[:len(p)] == p]:
+            del self.copies[k]
+        self.havoc[p] = token
 
     def read(self, p):
         if p in self.vals:
             return self.vals[p]
+        for k in range(len(p), 2, -1):
+            if p[:k] in self.havoc and not any(c_[:k] == p[:k] and len(c_) > k and p[:len(c_)] == c_ for c_ in self.copies):
+                return Lin.atom(('opaque', self.havoc[p[:k]], p))
         for k in range(len(p) - 1, 2, -1):
             pre = p[:k]
             if pre in self.copies:
@@ -853,6 +884,8 @@ class Store:
 
     def copy_struct(self, dst, src):
         snap = self.clone()
+        for k in [k for k in self.havoc if k[:len(dst)] == dst]:
+            del self.havoc[k]
         for k in [k for k in self.vals if k[:len(dst)] == dst]:
             del self.vals[k]
         for k in [k for k in self.copies if k[:len(dst)] == dst]:
@@ -876,6 +909,29 @@ def struct_source(tu, e):
         hops += 1
     if n is not None and n.get('kind') in ('DeclRefExpr', 'MemberExpr'):
         return access_path(tu, n)
+    return None
+
+
+def call_member_path(tu, e):
+    """(call node, (field, ...)) if e is  f(...).a.b  (a member of a call's result), else None"""
+    n = e
+    fields = []
+    hops = 0
+    while n is not None and hops < 10:
+        k = n.get('kind')
+        ks = tu.kids(n)
+        if k in ('ImplicitCastExpr', 'ParenExpr', 'ExprWithCleanups', 'MaterializeTemporaryExpr', 'CXXBindTemporaryExpr') and ks:
+            n = ks[0]
+        elif k == 'CXXConstructExpr' and len(ks) == 1:
+            n = ks[0]
+        elif k == 'MemberExpr' and ks:
+            fields.append(n.get('name'))
+            n = ks[0]
+        else:
+            break
+        hops += 1
+    if n is not None and n.get('kind') in CALLS and fields:
+        return n, tuple(reversed(fields))
     return None
 
 
@@ -946,10 +1002,39 @@ def sym_step(tu, st, n, on_call=None, env=None):
                 st.copy_struct(p, src)
             else:
                 st.write(p, ev(init))
-    elif k in CALLS and on_call is not None:
-        # calls that are not initialisers (handled from DeclStmt) still get a chance to record events
-        par = tu.par(n)
-        on_call(st, n, None)
+    elif k == 'CXXOperatorCallExpr' and tu.sd(n).get('q', '').endswith('::operator=') and len(ks) == 3 and \
+            irange(tu.sd(ks[1]).get('ct')) is None:
+        # struct assignment  a = b;  /  a = f(...).member;
+        p = access_path(tu, ks[1])
+        if p is None:
+            return
+        src = struct_source(tu, ks[2])
+        if src is not None:
+            st.copy_struct(p, src)
+            return
+        cm = call_member_path(tu, ks[2])
+        if cm is not None and ('v', 'tmp:' + cm[0]['id'], 'tmp') in st.copies or \
+                (cm is not None and any(k_[:3] == ('v', 'tmp:' + cm[0]['id'], 'tmp') for k_ in st.vals)):
+            st.copy_struct(p, ('v', 'tmp:' + cm[0]['id'], 'tmp') + cm[1])
+            return
+        st.clobber(p, n['id'])
+    elif k in CALLS:
+        # calls that are not initialisers (handled from DeclStmt) still get a chance to record events / apply summaries
+        handled = on_call(st, n, ('v', 'tmp:' + n['id'], 'tmp')) if on_call is not None else False
+        if not handled:
+            s_, obj, args = tu.call_parts(n)
+            cf_params = re.match(r'.*?\((.*)\)', s_.get('fty', '') or '')
+            ptypes = [x.strip() for x in cf_params.group(1).split(', ')] if cf_params else []
+            for ai, a_ in enumerate(args):
+                pt = ptypes[ai] if ai < len(ptypes) else ''
+                a0 = leaf(tu, a_)
+                tgt = None
+                if a0 is not None and a0.get('kind') == 'UnaryOperator' and a0.get('opcode') == '&':
+                    tgt = access_path(tu, tu.kids(a0)[0])
+                elif pt.endswith('&') and not pt.startswith('const '):
+                    tgt = access_path(tu, a_)
+                if tgt is not None and tgt[0] == 'v':
+                    st.clobber(tgt, n['id'])
 
 
 def sym_paths(tu, g, start, stops, st0, on_call=None, limit=256):
@@ -1121,7 +1206,65 @@ def pat_name(f):
     return q.replace(NS, '').replace('detail::', '')
 
 
-def check_internal(ctx, tu, chains):
+def task_fn_summaries(tu):
+    """For every function of the unit that takes an enkiTS task pointer: the set of event sequences over
+    A = TaskScheduler::AddTaskSetToPipe(param), W = TaskScheduler::WaitforTask(param), ? = param handed to something unknown,
+    one sequence per CFG path (callees of the same unit inlined)."""
+    memo = {}
+
+    def summ(f, k, depth):
+        key_ = (f['id'], k)
+        if key_ in memo:
+            return memo[key_]
+        memo[key_] = {('?',)}
+        g = tu.cfg(f)
+        if g is None or depth > 4:
+            return memo[key_]
+        pp = param_path(f['params'][k])
+        ev = {}
+        for b, i, n in g.stmts():
+            if n.get('kind') not in CALLS:
+                continue
+            s_, obj, args = call_args(tu, n)
+            hit = [ai for ai, a_ in enumerate(args) if access_path(tu, a_) == pp]
+            if not hit:
+                continue
+            q = s_.get('q', '')
+            if q == TS + 'AddTaskSetToPipe':
+                ev[n['id']] = {('A',)}
+            elif q in (TS + 'WaitforTask', TS + 'WaitforTaskSet'):
+                ev[n['id']] = {('W',)}
+            else:
+                cf = tu.callee_fn(n)
+                if cf is not None and tu.cfg(cf) is not None and not cf.get('virt') and hit[0] < len(cf['params']):
+                    ev[n['id']] = summ(cf, hit[0], depth + 1)
+                else:
+                    ev[n['id']] = {('?',)}
+
+        def transfer(blk, idx, e, st):
+            if e[0] == 'S' and e[1] in ev:
+                return [(st + x)[:4] for x in ev[e[1]]]
+            return [st]
+        try:
+            res = g.explore([()], transfer, None)
+            memo[key_] = {st for st, via in res.exits} or {()}
+        except RuntimeError:
+            memo[key_] = {('?',)}
+        return memo[key_]
+    out = {}
+    for f in tu.functions.values():
+        if f['dep'] or tu.cfg(f) is None:
+            continue
+        for k, p_ in enumerate(f.get('params', [])):
+            t = clean_type(p_['ct']) or ''
+            if t.endswith('*') and ('ITaskSet' in t or 'ICompletable' in t or t.endswith('Task *')):
+                out[f['q']] = (summ(f, k, 0), tu.fn_loc(f), tu.fn_file(f))
+                break
+    return out
+
+
+def check_internal(ctx, tu, chains, summaries=None):
+    summaries = summaries or {}
     R1, R2, R3 = 'R-C01-1', 'R-C01-2', 'R-C01-3'
     cfgname = 'INTERNAL'
     n_int = 0
@@ -1186,38 +1329,67 @@ def check_internal(ctx, tu, chains):
         uses = refs_to(tu, f, vd['id'])
         used_ok = set()
         for b, i, n in g.stmts():
-            if n.get('kind') in CALLS and tu.sd(n).get('q') in (SCHED, WAIT):
-                s, obj, args = call_args(tu, n)
-                a0 = leaf(tu, args[0]) if args else None
+            if n.get('kind') not in CALLS:
+                continue
+            s, obj, args = call_args(tu, n)
+            mine = False
+            for a_ in args:
+                a0 = leaf(tu, a_)
                 if a0 is not None and a0.get('kind') == 'UnaryOperator' and a0.get('opcode') == '&' and \
                         access_path(tu, tu.kids(a0)[0]) == tpath:
-                    (sched if tu.sd(n)['q'] == SCHED else waits).append(n)
-                    for r in uses:
-                        x = r
-                        for _ in range(4):
-                            x = tu.par(x)
-                            if x is None:
-                                break
-                            if x.get('id') == n['id']:
-                                used_ok.add(r['id'])
+                    mine = True
+            if not mine:
+                continue
+            q = s.get('q', '')
+            summaries.setdefault('__used__', (set(), '', ''))[0].add(q)
+            # what the callee does with the task: its summary from TaskSys.cpp (schedule = A, wait = W)
+            seqs = summaries.get(q, (None,))[0]
+            if seqs is None and q in (SCHED, WAIT):
+                seqs = {('A',)} if q == SCHED else {('W',)}      # library unit not available: the documented roles
+            if seqs is None or any('?' in x for x in seqs):
+                und.append('the task set is handed to `%s`, whose effect on it is not known' % q.split('::')[-1])
+            elif len(seqs) != 1:
+                und.append('`%s` does not treat the task set the same way on all of its paths (%s)'
+                           % (q.split('::')[-1], sorted(seqs)))
+            else:
+                sq = next(iter(seqs))
+                if sq == ('A',):
+                    sched.append(n)
+                elif sq == ('W',):
+                    waits.append(n)
+                elif sq == ('A', 'W'):
+                    sched.append(n)
+                    waits.append(n)
+                elif sq == ():
+                    pass
                 else:
-                    und.append('%s receives `%s`, not the address of the local task set' % (tu.sd(n)['q'].split('::')[-1],
-                                                                                           tu.show(args[0]) if args else ''))
+                    und.append('`%s` applies the sequence %s to the task set' % (q.split('::')[-1], sq))
+            for r in uses:
+                x = r
+                for _ in range(4):
+                    x = tu.par(x)
+                    if x is None:
+                        break
+                    if x.get('id') == n['id']:
+                        used_ok.add(r['id'])
         for r in uses:
             if r['id'] not in used_ok:
                 und.append('the task set `%s` is used outside schedule/wait at %s' % (vd.get('name'), tu.loc(r)))
         events = {n['id']: 'sched' for n in sched}
-        if not sched:
+        if not sched and not und:
             bad.append(('never', 'the task set is never scheduled: the body is never invoked', None))
         exits, seen = count_paths(tu, g, events, ppath, signs_of_type(pn['ct']))
-        for k, t in once_verdict(exits):
-            bad.append((k, t.replace('hands the range to the backend', 'schedules the task set'), None))
+        if sched or not und:
+            for k, t in once_verdict(exits, und):
+                if k == 'never' and und:
+                    continue
+                bad.append((k, t.replace('hands the range to the backend', 'schedules the task set'), None))
         for s_ in sched:
             if not g.dominates(g.where(dstmt['id']), g.where(s_['id'])):
                 und.append('the task set is scheduled on a path that does not construct it first')
         for u in sorted(set(und)):
             ctx.undecided(R1, inst, u, loc)
-        for k, t, n in bad:
+        for k, t, n in ([] if und else bad):
             ctx.violation(R1, inst, t, tu.loc(n) if n is not None else loc, key=key(R1, k))
         if not und and not bad:
             ctx.ok(R1, inst, 'one task set of size count, scheduled exactly once', loc)
@@ -1226,7 +1398,7 @@ def check_internal(ctx, tu, chains):
         for blk, i, e in g.elements():
             if e[0] == 'AD' and e[1] == vd['id']:
                 ad = (blk.id, i)
-        for s_ in sched:
+        for s_ in ([] if und else sched):
             sp = g.where(s_['id'])
             pd = [w for w in waits if g.postdominates(g.where(w['id']), sp)]
             if not pd:
@@ -1348,12 +1520,18 @@ def check_internal(ctx, tu, chains):
         li = analyse_counting_loop(tu, f, g, fun_paths, Lin.atom(('p', tp + ('start',))), Lin.atom(('p', tp + ('end',))),
                                    allow_ne=True)
         if li is None:
-            ctx.violation(R1, inst, 'ExecuteRange has no loop over its partition: at most one index of each partition runs', loc,
-                          key=key(R1, 'no-loop'))
+            handed = [n for b, i, n in g.stmts() if n.get('kind') in CALLS and
+                      any(obj_path(tu, a_) in fun_paths or access_path(tu, a_) == tp for a_ in tu.call_parts(n)[2])]
+            if handed:
+                ctx.undecided(R1, inst, 'ExecuteRange hands its partition / functor to `%s` instead of looping itself'
+                              % tu.sd(handed[0]).get('q', '?'), loc)
+            else:
+                ctx.violation(R1, inst, 'ExecuteRange has no loop over its partition: at most one index of each partition runs', loc,
+                              key=key(R1, 'no-loop'))
             continue
         for u in sorted(set(li.undecided)):
             ctx.undecided(R1, inst, u, loc)
-        for k, t, n in li.problems:
+        for k, t, n in ([] if li.undecided else li.problems):
             ctx.violation(R1, inst, t, tu.loc(n), key=key(R1, 'loop-' + k))
         # the loop must run on every path exactly once
         if li.decl_stmt:
@@ -1476,15 +1654,42 @@ def check_single_call(ctx, tu, f, rule, callee_q, what, file_key, require_arg_pa
         ctx.ok(rule, inst, 'calls %s(%s) exactly once on every path' % (what, f['params'][require_arg_param]['name']), loc)
 
 
-def check_tasksys(ctx, tu):
+def check_tasksys(ctx, tu, summaries):
+    """every function of TaskSys.cpp that parallel_for_internal hands its task to does the same thing with it on all of its
+    paths: schedule-like functions reach AddTaskSetToPipe(task) exactly once, wait-like ones WaitforTask(task)"""
     n = 0
-    for f in tu.fns(q=SCHED, dep=False):
+    used = summaries_used(summaries) | {SCHED, WAIT}
+    for q, (seqs, loc, file) in sorted((k_, v_) for k_, v_ in summaries.items() if k_ in used):
+        name = q.split('::')[-1]
+        letters = {c for x in seqs for c in x}
+        want = ('A',) if q == SCHED else ('W',) if q == WAIT else None
+        rule = 'R-C01-2' if (want == ('W',) or (want is None and 'A' not in letters)) else 'R-C01-1'
+        inst = '[INTERNAL] ' + q.replace(NS, '').replace('detail::', '')
+        key = lambda d: '%s|%s|%s|%s' % (rule, F_TASKSYS, name, d)
         n += 1
-        check_single_call(ctx, tu, f, 'R-C01-1', TS + 'AddTaskSetToPipe', 'TaskScheduler::AddTaskSetToPipe', F_TASKSYS)
-    for f in tu.fns(q=WAIT, dep=False):
-        n += 1
-        check_single_call(ctx, tu, f, 'R-C01-2', TS + 'WaitforTask', 'TaskScheduler::WaitforTask', F_TASKSYS)
+        if '?' in letters:
+            ctx.undecided(rule, inst, 'the task is handed to a function whose effect on it is not known', loc)
+            continue
+        if want is not None and seqs == {want}:
+            ctx.ok(rule, inst, 'reaches TaskScheduler::%s(task) exactly once on every path'
+                   % ('AddTaskSetToPipe' if want == ('A',) else 'WaitforTask'), loc)
+            continue
+        if want is None and len(seqs) == 1 and next(iter(seqs)) in (('A',), ('W',), ('A', 'W')):
+            ctx.ok(rule, inst, 'applies %s to the task on every path' % '+'.join(next(iter(seqs))), loc)
+            continue
+        w = want[0] if want else 'A'
+        what = 'TaskScheduler::AddTaskSetToPipe' if w == 'A' else 'TaskScheduler::WaitforTask'
+        if any(w not in x for x in seqs):
+            ctx.violation(rule, inst, 'a path returns without calling %s for the task' % what, loc, key=key('never'))
+        elif any(x.count(w) > 1 for x in seqs):
+            ctx.violation(rule, inst, 'a path calls %s more than once for the task' % what, loc, key=key('twice'))
+        else:
+            ctx.undecided(rule, inst, 'the task is treated differently on different paths: %s' % sorted(seqs), loc)
     ctx.floor('R-C01-1/2(TaskSys.cpp)', n, 2, 'scheduleTaskInternal and waitInternal')
+
+
+def summaries_used(summaries):
+    return set(summaries.get('__used__', ((),))[0]) if '__used__' in summaries else set()
 
 
 RC = 'm_RunningCount'
@@ -1540,6 +1745,12 @@ def check_add_task_set(ctx, tu):
         ctx.undecided(R, inst, 'function is not loop-free (%s)' % e, loc)
         return
     bad = []
+    if not found:
+        handed = [n for b, i, n in g.stmts() if n.get('kind') in CALLS and
+                  any(access_path(tu, a_) == pp for a_ in tu.call_parts(n)[2])]
+        if handed:
+            ctx.undecided(R, inst, 'SplitAndAddTask is not called directly; the task is handed to `%s`' % tu.sd(handed[0]).get('q', '?'), loc)
+            return
     for stop, st in paths:
         k = sum(1 for e in st.events if e[0] == 'split')
         if k != 1:
@@ -1620,7 +1831,15 @@ def check_wait_for_task(ctx, tu):
     res = g.explore([('?', False)], transfer, refine)
     bad = [st for st, via in res.exits if st[0] in ('V', '?') and not st[1]]
     sawzero = any(st[1] for st, via in res.exits)
-    if not sawzero:
+    unclassified = []
+    for blk in g.blocks.values():
+        if blk.cond is not None and len(blk.succ) == 2 and classify(tu.node(blk.cond)) is None:
+            cn = tu.node(blk.cond)
+            if any(x.get('kind') == 'DeclRefExpr' and x.get('referencedDecl', {}).get('id') == pp[1] for x in tu.walk(cn)):
+                unclassified.append(tu.show(cn))
+    if unclassified and (not sawzero or bad):
+        ctx.undecided(R, inst, 'the completion test `%s` is not in a recognised form' % unclassified[0], loc)
+    elif not sawzero:
         ctx.violation(R, inst, 'no exit of WaitforTask is guarded by an observation of m_RunningCount == 0: the join does not wait',
                       loc, key='%s|%s|TaskScheduler::WaitforTask|no-zero-test' % (R, F_ENKI))
     elif bad:
@@ -1640,8 +1859,22 @@ def find_split_task(tu):
     return None
 
 
-def implies_le(conds, x, y):
-    """do the path conditions imply x <= y ?  (x - y <= 0 syntactically, or via a min/take atom)"""
+def plain(*lins):
+    """all values are built from entry values, constants and min/max of such (nothing opaque, no unknown call)"""
+    def ok(v):
+        for at in v.t:
+            if at[0] == 'init':
+                continue
+            if at[0] in ('min', 'max') and all(ok(m) for m in at[1]):
+                continue
+            return False
+        return True
+    return all(v is not None and ok(v) for v in lins)
+
+
+def implies_le(conds, x, y, depth=0):
+    """do the path conditions imply x <= y ?  Syntactic difference, known comparisons, and min algebra:
+    min(a, b) <= y if a <= y or b <= y;  x <= min(a, b) if x <= a and x <= b"""
     d = x - y
     if d.is_const():
         return d.c <= 0
@@ -1651,16 +1884,26 @@ def implies_le(conds, x, y):
             return True
         if rel == '==' and (c == d or c == -d):
             return True
-        if rel in ('<', '<='):
-            # x < z (or x <= z) known, and z is min(..., y, ...)
-            z = x - c
-            za = z.single_atom()
-            if za is not None and za[0] == 'min' and y in za[1]:
-                return True
-    # y is min(...) is not enough; x is a min containing y
-    at = x.single_atom()
-    if at is not None and at[0] == 'min' and y in at[1]:
+    if depth > 4:
+        return False
+    xa = x.single_atom()
+    if xa is not None and xa[0] == 'min' and any(implies_le(conds, m, y, depth + 1) for m in xa[1]):
         return True
+    ya = y.single_atom()
+    if ya is not None and ya[0] == 'min' and all(implies_le(conds, x, m, depth + 1) for m in ya[1]):
+        return True
+    if ya is not None and ya[0] == 'max' and any(implies_le(conds, x, m, depth + 1) for m in ya[1]):
+        return True
+    # x = k + min(...) against y = k + z : compare after removing a common summand
+    for a in conds:
+        _, rel, c = a
+        if rel in ('<', '<='):
+            # known: u <= v with c = u - v ; x <= u and v <= y  =>  x <= y   (one step of transitivity through a min atom)
+            for at in c.t:
+                if at[0] == 'min' and c.t[at] == -1:
+                    u = c + Lin.atom(at)           # u - min <= 0  ->  u <= min(..)
+                    if u == x and implies_le([], Lin.atom(at), y, depth + 1):
+                        return True
     return False
 
 
@@ -1705,9 +1948,13 @@ def check_split_task(ctx, tu):
     r0 = Lin.atom(('init', rp))
     left = e0 - s0
     bad = []
+    und_st = []
     for st in stores:
         rs, re_, rpk = st.read(ret_path + ('partition', 'start')), st.read(ret_path + ('partition', 'end')), st.read(ret_path + ('pTask',))
         ss, se, sp = st.read(sub + ('partition', 'start')), st.read(sub + ('partition', 'end')), st.read(sub + ('pTask',))
+        if not plain(rs, re_, rpk, ss, se, sp):
+            und_st.append('a value computed by SplitTask is not in a recognised form (`%r`, `%r`, `%r`, `%r`)' % (rs, re_, ss, se))
+            continue
         if rpk != p0 or sp != p0:
             bad.append(('task', 'the task pointer of the halves differs from the input sub task'))
         if rs != s0:
@@ -1728,12 +1975,14 @@ def check_split_task(ctx, tu):
                             'range `%r`: it can extend beyond the partition' % (take, left)))
         else:
             if not implies_le(st.conds, take, left):
-                bad.append(('length', 'split length `%r` is not recognised as min(range, remaining)' % take))
-    for k, t in sorted(set(bad)):
+                und_st.append('cannot show that the split length `%r` stays within the remaining range `%r`' % (take, left))
+    for u in sorted(set(und_st)):
+        ctx.undecided(R, inst, u, loc)
+    for k, t in ([] if und_st else sorted(set(bad))):
         ctx.violation(R, inst, t, loc, key=key(k))
-    if not bad:
+    if not bad and not und_st:
         ctx.ok(R, inst, 'returns [s, s+min(r, e-s)), leaves [s+min(r, e-s), e), same task, on both paths', loc)
-    return f if not bad else None
+    return f if not bad and not und_st else None
 
 
 def make_split_summary(tu, split_fn):
@@ -1857,6 +2106,75 @@ def check_tokens(ctx, tu, inst, loc, key, events, outcome_of, owned0, require_em
     return bad
 
 
+def loop_invariant_store(tu, g, H, L, split_fn):
+    """Values of locals that are set once on the single path from the function entry to the loop head and are loop
+    invariant (neither they nor anything they were computed from is written inside the loop).  Their 'entry' atoms then
+    also denote the value at the start of every iteration."""
+    st = Store(tu)
+    try:
+        pre = sym_paths(tu, g, g.entry, {H.id}, Store(tu))
+    except ValueError:
+        return st
+    pre = [x for x in pre if x[0] == H.id]
+    if len(pre) != 1:
+        return st
+    written = set()
+    for w in find_writes(tu, g, L):
+        if w[0] is not None:
+            written.add(w[0])
+    for bid in L:
+        for e in g.blocks[bid].el:
+            n = tu.node(e[1]) if e[0] == 'S' else None
+            if n is None:
+                continue
+            if n.get('kind') == 'DeclStmt':
+                for vd in tu.kids(n):
+                    if vd.get('kind') == 'VarDecl':
+                        written.add(('v', vd['id'], vd.get('name')))
+            if n.get('kind') in CALLS:
+                cf = tu.callee_fn(n)
+                s_, obj, args = tu.call_parts(n)
+                if cf is not None and split_fn is not None and cf['id'] == split_fn['id'] and args:
+                    ap = access_path(tu, args[0])
+                    if ap:
+                        written.add(ap + ('partition', 'start'))
+                    continue
+                m = re.match(r'.*?\((.*)\)', s_.get('fty', '') or '')
+                ptypes = [x.strip() for x in m.group(1).split(', ')] if m else []
+                for ai, a_ in enumerate(args):
+                    pt = ptypes[ai] if ai < len(ptypes) else ''
+                    a0 = leaf(tu, a_)
+                    if a0 is not None and a0.get('kind') == 'UnaryOperator' and a0.get('opcode') == '&':
+                        ap = access_path(tu, tu.kids(a0)[0])
+                        # &x->m_RunningCount handed to an atomic: only that field
+                        if ap:
+                            written.add(ap)
+                    elif pt.endswith('&') and not pt.startswith('const '):
+                        ap = access_path(tu, a_)
+                        if ap:
+                            written.add(ap)
+
+    def touched(q):
+        # q names a scalar (integer or pointer): it changes only if q itself or an object containing it is written
+        return any(q[:len(w)] == w for w in written)
+
+    def invariant(v):
+        for at in v.t:
+            if at[0] == 'init':
+                if touched(at[1]):
+                    return False
+            elif at[0] in ('min', 'max'):
+                if not all(invariant(m) for m in at[1]):
+                    return False
+            else:
+                return False
+        return True
+    for p, v in pre[0][1].vals.items():
+        if len(p) == 3 and not touched(p) and invariant(v):
+            st.vals[p] = v
+    return st
+
+
 def check_split_and_add(ctx, tu, split_fn):
     R = 'R-C01-6'
     fs = tu.fns(q=TS + 'SplitAndAddTask', dep=False)
@@ -1889,8 +2207,9 @@ def check_split_and_add(ctx, tu, split_fn):
     L = natural_loop(g, H.id)
     # anything outside the loop must not touch the count or the pipes
     on_call = make_split_summary(tu, split_fn)
+    st_init = loop_invariant_store(tu, g, H, L, split_fn)
     try:
-        paths = sym_paths(tu, g, H.succ[0], {H.id} | (set(g.blocks) - L), Store(tu), on_call)
+        paths = sym_paths(tu, g, H.succ[0], {H.id} | (set(g.blocks) - L), st_init, on_call)
     except ValueError as e:
         ctx.undecided(R, inst, 'loop body is not loop-free (%s)' % e, loc)
         return
@@ -1946,6 +2265,9 @@ def check_split_and_add(ctx, tu, split_fn):
             continue
         task, xs, xe = consumed[0]
         ss, se = st.read(sub + ('partition', 'start')), st.read(sub + ('partition', 'end'))
+        if not plain(task, xs, xe, ss, se):
+            und.append('the partition consumed in an iteration is not in a recognised form ([`%r`, `%r`), remaining from `%r`)' % (xs, xe, ss))
+            continue
         if task != p0:
             bad.append(('task', 'the partition consumed belongs to a different task than the sub task being split'))
         if xs != s0:
@@ -1978,7 +2300,7 @@ def check_split_and_add(ctx, tu, split_fn):
             und.append('running-count / pipe operation after the splitting loop (%s) although every iteration is balanced' % late)
     for u in sorted(set(und)):
         ctx.undecided(R, inst, u, loc)
-    for k, t in sorted(set(bad)):
+    for k, t in ([] if und else sorted(set(bad))):
         ctx.violation(R, inst, t, loc, key=key(k))
     if not bad and not und:
         ctx.ok(R, inst, '%d iteration paths: increment precedes publication, inline execution is followed by one decrement, '
@@ -1997,6 +2319,230 @@ def bool_var_cond(tu, cond):
     return None
 
 
+PIPE_READS = ('::WriterTryReadFront', '::ReaderTryReadBack')
+
+
+def deciding(tu, cond):
+    """The operand that decides a block's branch: for the block that ends an `a && b` / `a || b` condition clang reports the
+    whole expression, whose value there equals that of its right operand (the left one already had its own block)."""
+    n = leaf(tu, cond)
+    while n is not None and n.get('kind') == 'BinaryOperator' and n.get('opcode') in ('&&', '||'):
+        n = leaf(tu, tu.kids(n)[1])
+    return n
+
+
+def strip_not(tu, cond):
+    """(leaf expression, positive?) of a condition after removing logical negations"""
+    n = deciding(tu, cond)
+    pos = True
+    while n is not None and n.get('kind') == 'UnaryOperator' and n.get('opcode') == '!':
+        pos = not pos
+        n = deciding(tu, tu.kids(n)[0])
+    return n, pos
+
+
+def is_subtask_ptr(ct):
+    t = clean_type(ct) or ''
+    return t.replace(' ', '') in ('enki::SubTaskSet*', 'SubTaskSet*')
+
+
+class AcqFlow:
+    """Flow of 'a partition was obtained from a pipe' through a function: acquisition sites are pipe reads or verified
+    acquire-helpers; their Boolean result is either stored in one flag variable or tested directly by a branch."""
+
+    def __init__(self, tu, f, helpers):
+        self.tu, self.f, self.g = tu, f, tu.cfg(f)
+        self.und = []
+        self.sites = {}       # call id -> (flag var id | None, out-argument expression)
+        self.flag = None
+        self.unknown_taker = []
+        g = self.g
+        for b, i, n in g.stmts():
+            if n.get('kind') not in CALLS:
+                continue
+            s_, obj, args = call_args(tu, n)
+            q = s_.get('q', '')
+            out = None
+            if q.endswith(PIPE_READS):
+                out = args[0] if args else None
+            else:
+                cf = tu.callee_fn(n)
+                k = helpers(cf) if cf is not None else None
+                if k is not None and k < len(args):
+                    out = args[k]
+                elif any(is_subtask_ptr(tu.sd(a_).get('ct')) for a_ in args) and q not in (TS + 'SplitAndAddTask',) \
+                        and not q.endswith('::WriterTryWriteFront'):
+                    self.unknown_taker.append(n)
+            if out is None:
+                continue
+            p = tu.par(n)
+            while p is not None and p.get('kind') in ('ImplicitCastExpr', 'ParenExpr', 'ExprWithCleanups'):
+                p = tu.par(p)
+            v = None
+            if p is not None and p.get('kind') == 'VarDecl':
+                v = p['id']
+            elif p is not None and p.get('kind') == 'BinaryOperator' and p.get('opcode') == '=':
+                ap = access_path(tu, tu.kids(p)[0])
+                v = ap[1] if ap and len(ap) == 3 else None
+            if v is None:
+                # must be tested directly by the branch that ends its block
+                blk = g.blocks[g.where(n['id'])[0]]
+                c, pos = strip_not(tu, tu.node(blk.cond)) if blk.cond else (None, True)
+                if c is None or c.get('id') != n['id'] or len(blk.succ) != 2:
+                    self.und.append('result of the pipe read at %s is neither stored in a flag nor tested directly' % tu.loc(n))
+                    continue
+            else:
+                if self.flag is not None and self.flag != v:
+                    self.und.append('pipe reads store their result in different variables')
+                self.flag = v
+            self.sites[n['id']] = (v, out)
+        # other writes of the flag
+        for b, i, n in g.stmts():
+            if n.get('kind') == 'BinaryOperator' and n.get('opcode') == '=' and self.flag is not None:
+                ap = access_path(tu, tu.kids(n)[0])
+                if ap and ap[1] == self.flag:
+                    rhs = leaf(tu, tu.kids(n)[1])
+                    if rhs is None or rhs.get('id') not in self.sites:
+                        self.und.append('flag variable is assigned something else than a pipe read at %s' % tu.loc(n))
+
+    def out_paths(self):
+        """access paths of the sub task the acquisitions fill (`&x` -> x ; pointer parameter p -> p)"""
+        tu = self.tu
+        out = set()
+        for v, a in self.sites.values():
+            a0 = leaf(tu, a)
+            if a0 is not None and a0.get('kind') == 'UnaryOperator' and a0.get('opcode') == '&':
+                out.add(access_path(tu, tu.kids(a0)[0]))
+            else:
+                out.add(access_path(tu, a))
+        return out
+
+    def success_succ(self, blk):
+        """successor block on which an acquisition is known to have succeeded, for a block ending in a test of it"""
+        tu = self.tu
+        if blk.cond is None or len(blk.succ) != 2:
+            return None
+        c, pos = strip_not(tu, tu.node(blk.cond))
+        if c is None:
+            return None
+        if c.get('id') in self.sites and self.sites[c['id']][0] is None:
+            return blk.succ[0] if pos else blk.succ[1]
+        if c.get('kind') == 'DeclRefExpr' and self.flag is not None and c.get('referencedDecl', {}).get('id') == self.flag:
+            return blk.succ[0] if pos else blk.succ[1]
+        return None
+
+    def explore(self, events, probs):
+        """events: {stmt id: 'exec'|'dec'|'inc'|'rmw'}.  Returns (exit states (v, tok, exe), returns {(value, tok, exe, v)})"""
+        tu, g = self.tu, self.g
+        sites, flag = self.sites, self.flag
+        returns = set()
+
+        def transfer(blk, idx, e, st):
+            if e[0] != 'S':
+                return [st]
+            v, tok, exe, pend = st
+            nid = e[1]
+            if nid in sites:
+                if v == 'T' or tok > 0:
+                    probs.add(('acquire-while-holding', 'a second partition is read from a pipe while one is already held: '
+                               'the first one is overwritten and never run'))
+                if sites[nid][0] is None:
+                    return [(v, tok, exe, nid)]
+                return [('T', min(tok + 1, 2), exe, None), ('F', tok, exe, None)]
+            k = events.get(nid)
+            if k == 'exec':
+                if tok == 0:
+                    probs.add(('exec-without-task', 'ExecuteRange is reached on a path where no partition was obtained from a pipe'))
+                    return [st]
+                return [(v, tok - 1, min(exe + 1, 2), pend)]
+            if k == 'dec':
+                if exe == 0:
+                    probs.add(('extra-decrement', 'm_RunningCount is decremented on a path where no partition has just been executed: '
+                               'the count reaches 0 while partitions are still queued (join returns early)'))
+                    return [st]
+                return [(v, tok, exe - 1, pend)]
+            if k in ('inc', 'rmw'):
+                probs.add(('rmw', 'm_RunningCount is changed other than by the decrement after ExecuteRange'))
+                return [st]
+            n = tu.node(nid)
+            if n is not None and n.get('kind') == 'ReturnStmt' and tu.kids(n):
+                x = leaf(tu, tu.kids(n)[0])
+                val = '?'
+                if x is not None and x.get('kind') == 'CXXBoolLiteralExpr':
+                    val = bool(x.get('value'))
+                elif x is not None and x.get('kind') == 'DeclRefExpr' and x.get('referencedDecl', {}).get('id') == flag:
+                    val = 'flag'
+                returns.add((val, tok, exe, v))
+            return [st]
+
+        def refine(blk, si, st):
+            if blk.cond is None or len(blk.succ) != 2:
+                return [st]
+            v, tok, exe, pend = st
+            c, pos = strip_not(tu, tu.node(blk.cond))
+            if c is None:
+                return [st]
+            truth = (si == 0) == pos
+            if pend is not None and c.get('id') == pend:
+                return [(v, min(tok + 1, 2), exe, None)] if truth else [(v, tok, exe, None)]
+            if c.get('kind') == 'DeclRefExpr' and flag is not None and c.get('referencedDecl', {}).get('id') == flag:
+                if v == '?':
+                    return [st]
+                return [st] if (v == 'T') == truth else []
+            return [st]
+        res = g.explore([('F', 0, 0, None)], transfer, refine)
+        return {st[:3] for st, via in res.exits}, returns
+
+
+_ACQ_HELPERS = {}
+
+
+def acquire_helper(tu, f):
+    """index of the SubTaskSet* out-parameter if f is a verified acquire-helper: it returns true exactly on the paths on
+    which one pipe read into that parameter succeeded (and nothing was read before or after), else None"""
+    key_ = (id(tu), f['id'])
+    if key_ in _ACQ_HELPERS:
+        return _ACQ_HELPERS[key_]
+    _ACQ_HELPERS[key_] = None
+    ks = [k for k, p_ in enumerate(f.get('params', [])) if is_subtask_ptr(p_['ct'])]
+    if len(ks) != 1 or tu.cfg(f) is None or f.get('virt') or not f.get('fty', '').startswith('bool'):
+        return None
+    k = ks[0]
+    flow = AcqFlow(tu, f, lambda cf: None)
+    if flow.und or not flow.sites or flow.unknown_taker:
+        return None
+    if flow.out_paths() != {param_path(f['params'][k])}:
+        return None
+    probs = set()
+    exits, returns = flow.explore({}, probs)
+    if probs or not returns:
+        return None
+    for val, tok, exe, v in returns:
+        if val is True and tok != 1:
+            return None
+        if val is False and tok != 0:
+            return None
+        if val == 'flag' and ((v == 'T') != (tok == 1) or v == '?'):
+            return None
+        if val == '?':
+            return None
+    # the out-parameter itself is only handed to the pipe reads
+    for r in refs_to(tu, f, f['params'][k]['id']):
+        x = r
+        okr = False
+        for _ in range(4):
+            x = tu.par(x)
+            if x is None:
+                break
+            if x.get('id') in flow.sites:
+                okr = True
+                break
+        if not okr:
+            return None
+    _ACQ_HELPERS[key_] = k
+    return k
+
+
 def check_try_run_task(ctx, tu, split_fn):
     R = 'R-C01-6'
     fs = tu.fns(q=TS + 'TryRunTask', dep=False)
@@ -2008,133 +2554,60 @@ def check_try_run_task(ctx, tu, split_fn):
     g = tu.cfg(f)
     loc = tu.fn_loc(f)
     key = lambda d: '%s|%s|TaskScheduler::TryRunTask|%s' % (R, F_ENKI, d)
-    # ---- acquisitions and the flag they are stored in
-    acq = {}      # call id -> flag decl id
-    flag = None
-    und = []
-    for b, i, n in g.stmts():
-        if n.get('kind') in CALLS and tu.sd(n).get('q', '').endswith(('::WriterTryReadFront', '::ReaderTryReadBack')):
-            p = tu.par(n)
-            while p is not None and p.get('kind') in ('ImplicitCastExpr', 'ParenExpr', 'ExprWithCleanups'):
-                p = tu.par(p)
-            v = None
-            if p is not None and p.get('kind') == 'VarDecl':
-                v = p['id']
-            elif p is not None and p.get('kind') == 'BinaryOperator' and p.get('opcode') == '=':
-                ap = access_path(tu, tu.kids(p)[0])
-                v = ap[1] if ap and len(ap) == 3 else None
-            if v is None:
-                und.append('result of the pipe read at %s is not stored in a flag variable' % tu.loc(n))
-            else:
-                acq[n['id']] = v
-                if flag is not None and flag != v:
-                    und.append('pipe reads store their result in different variables')
-                flag = v
-    if not acq:
-        ctx.violation(R, inst, 'TryRunTask never reads a partition from a pipe: queued partitions are never run', loc, key=key('no-read'))
+    flow = AcqFlow(tu, f, lambda cf: acquire_helper(tu, cf))
+    if flow.und:
+        for u in sorted(set(flow.und)):
+            ctx.undecided(R, inst, u, loc)
         return
-    # other writes of the flag
-    assign_ids = {}
-    for b, i, n in g.stmts():
-        if n.get('kind') == 'BinaryOperator' and n.get('opcode') == '=':
-            ap = access_path(tu, tu.kids(n)[0])
-            if ap and ap[1] == flag:
-                rhs = leaf(tu, tu.kids(n)[1])
-                if rhs is None or rhs.get('id') not in acq:
-                    und.append('flag variable is assigned something else than a pipe read at %s' % tu.loc(n))
+    if not flow.sites:
+        if flow.unknown_taker:
+            ctx.undecided(R, inst, 'the sub task is filled by `%s`, which is not recognised as a pipe read'
+                          % tu.sd(flow.unknown_taker[0]).get('q', '?'), loc)
+        else:
+            ctx.violation(R, inst, 'TryRunTask never reads a partition from a pipe: queued partitions are never run', loc,
+                          key=key('no-read'))
+        return
     events = {}
     for b, i, n in g.stmts():
-        if n.get('kind') in CALLS:
+        if n.get('kind') in CALLS and n['id'] not in flow.sites:
             q = tu.sd(n).get('q', '')
-            if n['id'] in acq:
-                events[n['id']] = 'acq'
-            elif q == 'enki::ITaskSet::ExecuteRange':
+            if q == 'enki::ITaskSet::ExecuteRange':
                 events[n['id']] = 'exec'
             else:
                 ev = running_count_event(tu, n)
                 if ev:
                     events[n['id']] = ev[0]
-    if und:
-        for u in sorted(set(und)):
-            ctx.undecided(R, inst, u, loc)
-        return
     probs = set()
-
-    def transfer(blk, idx, e, st):
-        if e[0] != 'S' or e[1] not in events:
-            return [st]
-        v, tok, exe = st
-        k = events[e[1]]
-        if k == 'acq':
-            if v == 'T' or tok > 0:
-                probs.add(('acquire-while-holding', 'a second partition is read from a pipe while one is already held: '
-                           'the first one is overwritten and never run'))
-            return [('T', min(tok + 1, 2), exe), ('F', tok, exe)]
-        if k == 'exec':
-            if tok == 0:
-                probs.add(('exec-without-task', 'ExecuteRange is reached on a path where no partition was obtained from a pipe'))
-                return [st]
-            return [(v, tok - 1, min(exe + 1, 2))]
-        if k == 'dec':
-            if exe == 0:
-                probs.add(('extra-decrement', 'm_RunningCount is decremented on a path where no partition has just been executed: '
-                           'the count reaches 0 while partitions are still queued (join returns early)'))
-                return [st]
-            return [(v, tok, exe - 1)]
-        if k in ('inc', 'rmw'):
-            probs.add(('rmw', 'TryRunTask changes m_RunningCount other than by the decrement after ExecuteRange'))
-        return [st]
-
-    def refine(blk, si, st):
-        if blk.cond is None or len(blk.succ) != 2:
-            return [st]
-        bv = bool_var_cond(tu, tu.node(blk.cond))
-        if bv is None or bv[0] != flag:
-            return [st]
-        truth = (si == 0) == bv[1]
-        if st[0] == '?':
-            return [st]
-        return [st] if (st[0] == 'T') == truth else []
-
-    res = g.explore([('F', 0, 0)], transfer, refine)
-    for st, via in res.exits:
-        if st[1] > 0:
+    exits, returns = flow.explore(events, probs)
+    for v, tok, exe in exits:
+        if tok > 0:
             probs.add(('dropped', 'a partition obtained from a pipe is not executed on some path: its indices never run and '
                        'm_RunningCount never reaches 0'))
-        if st[2] > 0:
+        if exe > 0:
             probs.add(('missing-decrement', 'a partition is executed but m_RunningCount is not decremented afterwards: the count '
                        'never reaches 0 and the join never returns'))
-    # ---- exact cover and same-task pairing in the region guarded by the flag
-    guards = []
+    # ---- exact cover and same-task pairing in the region entered after a successful read
     dom = g.dominators()
     ev_blocks = {g.where(i)[0] for i, k in events.items() if k in ('exec', 'dec')}
+    guards = []
     for blk in g.blocks.values():
-        if blk.cond is None or len(blk.succ) != 2:
-            continue
-        bv = bool_var_cond(tu, tu.node(blk.cond))
-        if bv and bv[0] == flag:
-            tsucc = blk.succ[0] if bv[1] else blk.succ[1]
-            if tsucc is not None and ev_blocks and all(tsucc in dom.get(b, ()) for b in ev_blocks):
-                guards.append(tsucc)
+        ts = flow.success_succ(blk)
+        if ts is not None and ev_blocks and all(ts in dom.get(b, ()) for b in ev_blocks):
+            guards.append(ts)
     if len(guards) > 1:
         inner = [x for x in guards if all(y in dom.get(x, ()) for y in guards)]
         guards = inner[:1] if inner else guards
-    if len(guards) != 1:
-        ctx.undecided(R, inst, 'the region that runs the obtained partition is not guarded by one test of the flag (%d candidates)'
-                      % len(guards), loc)
+    if not ev_blocks:
+        probs.add(('dropped', 'a partition obtained from a pipe is never executed'))
+    elif len(guards) != 1:
+        ctx.undecided(R, inst, 'the region that runs the obtained partition is not entered through one test of the pipe read '
+                      '(%d candidates)' % len(guards), loc)
     else:
-        # the local the pipe reads fill
-        subs = set()
-        for cid in acq:
-            c = tu.node(cid)
-            s_, obj, args = call_args(tu, c)
-            a0 = leaf(tu, args[0]) if args else None
-            if a0 is not None and a0.get('kind') == 'UnaryOperator' and a0.get('opcode') == '&':
-                subs.add(access_path(tu, tu.kids(a0)[0]))
+        subs = flow.out_paths()
         if len(subs) != 1 or None in subs:
             ctx.undecided(R, inst, 'pipe reads do not fill one local sub task', loc)
         else:
-            sub = subs.pop()
+            sub = next(iter(subs))
             s0 = Lin.atom(('init', sub + ('partition', 'start')))
             e0 = Lin.atom(('init', sub + ('partition', 'end')))
             p0 = Lin.atom(('init', sub + ('pTask',)))
@@ -2142,13 +2615,13 @@ def check_try_run_task(ctx, tu, split_fn):
                 paths = sym_paths(tu, g, guards[0], set(), Store(tu), make_split_summary(tu, split_fn))
             except ValueError as e:
                 paths = None
-                ctx.undecided(R, inst, 'region guarded by the flag is not loop-free (%s)' % e, loc)
+                ctx.undecided(R, inst, 'region entered after the pipe read is not loop-free (%s)' % e, loc)
             for stop, st in (paths or []):
                 ev = [e for e in st.events if e[0] != 'branch']
                 for k, t in check_tokens(ctx, tu, inst, loc, key, ev, lambda pid: None, [p0]):
                     probs.add((k, t))
                 pieces = [e[2] for e in ev if e[0] in ('exec', 'requeue')]
-                if any(p is None for p in pieces):
+                if any(p is None or None in p for p in pieces):
                     ctx.undecided(R, inst, 'a partition handed to ExecuteRange / SplitAndAddTask is not a local structure', loc)
                     continue
                 cur = s0
@@ -2164,9 +2637,13 @@ def check_try_run_task(ctx, tu, split_fn):
                     cur = nxt[0][2]
                     rest.remove(nxt[0])
                 if not okc or cur != e0:
-                    probs.add(('cover', 'the partitions run and re-queued (%s) are not an exact cover of the partition [%r, %r) read from '
-                               'the pipe: indices are run twice or never'
-                               % (', '.join('[%r, %r)' % (p[1], p[2]) for p in pieces), s0, e0)))
+                    recognised = all(all(a_[0] in ('init', 'min') for a_ in x.t) for p in pieces for x in p[1:])
+                    msg = ('the partitions run and re-queued (%s) are not an exact cover of the partition [%r, %r) read from '
+                           'the pipe' % (', '.join('[%r, %r)' % (p[1], p[2]) for p in pieces), s0, e0))
+                    if recognised:
+                        probs.add(('cover', msg + ': indices are run twice or never'))
+                    else:
+                        ctx.undecided(R, inst, msg + ' (bounds not in a recognised form)', loc)
     for k, t in sorted(probs):
         ctx.violation(R, inst, t, loc, key=key(k))
     if not probs:
@@ -2247,11 +2724,111 @@ def check_pipe_protocol(ctx, tu):
                     'then stores CAN_WRITE; the writer touches m_Buffer[i] only after observing CAN_WRITE, then stores CAN_READ, then a '
                     'compiler/memory barrier, then publishes the write index')
     n_inst = 0
-    for f in tu.functions.values():
-        if f['dep'] or f.get('rec') != PIPE or tu.cfg(f) is None:
-            continue
+    members = [f for f in tu.functions.values() if not f['dep'] and f.get('rec') == PIPE and tu.cfg(f) is not None]
+    PUBLIC = ('WriterTryWriteFront', 'WriterTryReadFront', 'ReaderTryReadBack')
+    alias = {}        # index parameter of an inlined private helper -> index path at the call site
+    depth = [0]
+
+    def midx(e, member):
+        r = member_index(tu, e, member)
+        return alias.get(r, r) if r is not None else None
+
+    def mpath(e):
+        r = access_path(tu, e)
+        return alias.get(r, r) if r is not None else None
+
+    def result_var(n):
+        par = tu.par(n)
+        while par is not None and par.get('kind') in ('ImplicitCastExpr', 'ParenExpr'):
+            par = tu.par(par)
+        if par is not None and par.get('kind') == 'VarDecl':
+            return par['id']
+        if par is not None and par.get('kind') == 'BinaryOperator' and par.get('opcode') == '=':
+            ap = access_path(tu, tu.kids(par)[0])
+            return ap[1] if ap else None
+        return None
+    cas_calls = {}     # call id -> (index expression node, result variable | None, polarity: None = raw CAS value, bool = claim helper)
+    cas_bad = {}
+    for f in members:
+        for b, i, n in tu.cfg(f).stmts():
+            if n.get('kind') == 'CallExpr' and tu.sd(n).get('q') == 'enki::AtomicCompareAndSwap':
+                args = tu.kids(n)[1:]
+                a0 = leaf(tu, args[0]) if args else None
+                ie = None
+                if a0 is not None and a0.get('kind') == 'UnaryOperator' and a0.get('opcode') == '&' and \
+                        member_index(tu, tu.kids(a0)[0], 'm_Flags') is not None:
+                    ie = tu.kids(a0)[0]
+                if ie is None or len(args) != 3:
+                    continue
+                if (const_name(tu, args[1]), const_name(tu, args[2])) != ('FLAG_INVALID', 'FLAG_CAN_READ'):
+                    cas_bad[n['id']] = f
+                cas_calls[n['id']] = (ie, result_var(n), None)
+
+    def claim_summary(h):
+        """(index parameter number, polarity) if the private helper h only claims slot [param] by the CAS and returns
+        (result == FLAG_CAN_READ) [polarity True] or (result != FLAG_CAN_READ) [False]"""
+        g2 = tu.cfg(h)
+        mine = [cid for cid in cas_calls if g2.where(cid) is not None and cas_calls[cid][2] is None]
+        if len(mine) != 1 or g2.back_edges():
+            return None
+        ie, var, _ = cas_calls[mine[0]]
+        ip = member_index(tu, ie, 'm_Flags')
+        ks_ = [k for k, p_ in enumerate(h['params']) if param_path(p_) == ip]
+        if len(ks_) != 1:
+            return None
+        rets = []
+        for b, i, n in g2.stmts():
+            k = n.get('kind')
+            if k == 'ArraySubscriptExpr' and member_index(tu, n, 'm_Buffer') is not None:
+                return None
+            if k == 'BinaryOperator' and n.get('opcode') == '=' and member_index(tu, tu.kids(n)[0], 'm_Flags') is not None:
+                return None
+            if k == 'ReturnStmt':
+                if not tu.kids(n):
+                    return None
+                rets.append(tu.kids(n)[0])
+        if len(rets) != 1:
+            return None
+        c = leaf(tu, rets[0])
+        neg = False
+        while c is not None and c.get('kind') == 'UnaryOperator' and c.get('opcode') == '!':
+            neg = not neg
+            c = leaf(tu, tu.kids(c)[0])
+        if c is None or c.get('kind') != 'BinaryOperator' or c.get('opcode') not in ('==', '!='):
+            return None
+        a, b = tu.kids(c)
+        for x, y in ((a, b), (b, a)):
+            if const_name(tu, y) == 'FLAG_CAN_READ':
+                lx = leaf(tu, x)
+                isres = lx is not None and (lx.get('id') == mine[0] or
+                                            (var is not None and lx.get('kind') == 'DeclRefExpr' and
+                                             lx.get('referencedDecl', {}).get('id') == var))
+                if isres:
+                    return ks_[0], (c['opcode'] == '==') != neg
+        return None
+    helper_claim = {}
+    for h in members:
+        if h['q'].split('::')[-1] not in PUBLIC:
+            cs = claim_summary(h)
+            if cs is not None:
+                helper_claim[h['id']] = cs
+    for f in members:
+        for b, i, n in tu.cfg(f).stmts():
+            if n.get('kind') == 'CXXMemberCallExpr':
+                cf = tu.callee_fn(n)
+                if cf is not None and cf['id'] in helper_claim:
+                    k_, pol = helper_claim[cf['id']]
+                    s_, obj, args = tu.call_parts(n)
+                    if k_ < len(args):
+                        cas_calls[n['id']] = (args[k_], result_var(n), pol)
+
+    def cas_idx(cid):
+        ie = cas_calls[cid][0]
+        r = member_index(tu, ie, 'm_Flags') if cas_calls[cid][2] is None else access_path(tu, ie)
+        return alias.get(r, r) if r is not None else ('?',)
+    for f in members:
         name = f['q'].split('::')[-1]
-        if name not in ('WriterTryWriteFront', 'WriterTryReadFront', 'ReaderTryReadBack'):
+        if name not in PUBLIC:
             continue
         n_inst += 1
         producer = name == 'WriterTryWriteFront'
@@ -2262,34 +2839,18 @@ def check_pipe_protocol(ctx, tu):
         key = lambda d: '%s|%s|LockLessMultiReadPipe::%s|%s' % (R, file, name, d)
         probs = set()
         und = set()
-        cas_calls = {}
-        for b, i, n in g.stmts():
-            if n.get('kind') == 'CallExpr' and tu.sd(n).get('q') == 'enki::AtomicCompareAndSwap':
-                args = tu.kids(n)[1:]
-                a0 = leaf(tu, args[0]) if args else None
-                idx = member_index(tu, tu.kids(a0)[0], 'm_Flags') if a0 is not None and a0.get('kind') == 'UnaryOperator' and a0.get('opcode') == '&' else None
-                if idx is None or len(args) != 3:
-                    continue
-                if (const_name(tu, args[1]), const_name(tu, args[2])) != ('FLAG_INVALID', 'FLAG_CAN_READ'):
-                    probs.add(('cas-values', 'the claiming compare-and-swap is not (swapTo = FLAG_INVALID, compareWith = FLAG_CAN_READ)'))
-                par = tu.par(n)
-                while par is not None and par.get('kind') in ('ImplicitCastExpr', 'ParenExpr'):
-                    par = tu.par(par)
-                var = None
-                if par is not None and par.get('kind') == 'VarDecl':
-                    var = par['id']
-                elif par is not None and par.get('kind') == 'BinaryOperator' and par.get('opcode') == '=':
-                    ap = access_path(tu, tu.kids(par)[0])
-                    var = ap[1] if ap else None
-                cas_calls[n['id']] = (idx, var)
+        for cid, hf in cas_bad.items():
+            if g.where(cid) is not None:
+                probs.add(('cas-values', 'the claiming compare-and-swap is not (swapTo = FLAG_INVALID, compareWith = FLAG_CAN_READ)'))
 
         def cond_info(cond):
             """('claim', truth-on-success, idx) for a test of a CAS result / of m_Flags[i] against its expected constant"""
-            n = leaf(tu, cond)
-            neg = False
-            while n is not None and n.get('kind') == 'UnaryOperator' and n.get('opcode') == '!':
-                neg = not neg
-                n = leaf(tu, tu.kids(n)[0])
+            n, pos = strip_not(tu, cond)
+            neg = not pos
+            if n is not None and n.get('id') in cas_calls and cas_calls[n['id']][2] is not None:
+                return ('cas', cas_calls[n['id']][2] != neg, cas_idx(n['id']), None)
+            if n is not None and n.get('kind') == 'DeclRefExpr' and clean_type(tu.sd(n).get('ct')) == 'bool':
+                return ('boolvar', not neg, None, n.get('referencedDecl', {}).get('id'))
             if n is None or n.get('kind') != 'BinaryOperator' or n.get('opcode') not in ('==', '!='):
                 return None
             ks = tu.kids(n)
@@ -2300,13 +2861,13 @@ def check_pipe_protocol(ctx, tu):
                     continue
                 eq = (n['opcode'] == '==') != neg
                 if cn == 'FLAG_CAN_READ':
-                    if la.get('id') in cas_calls:
-                        return ('cas', eq, cas_calls[la['id']][0], None)
+                    if la.get('id') in cas_calls and cas_calls[la['id']][2] is None:
+                        return ('cas', eq, cas_idx(la['id']), None)
                     ap = access_path(tu, a)
                     if ap is not None and len(ap) == 3:
                         return ('casvar', eq, None, ap[1])
                 if cn == 'FLAG_CAN_WRITE' and producer:
-                    idx = member_index(tu, a, 'm_Flags')
+                    idx = midx(a, 'm_Flags')
                     if idx is not None:
                         return ('flag', eq, idx, None)
             return None
@@ -2321,13 +2882,39 @@ def check_pipe_protocol(ctx, tu):
             own, pend, ph = st
             k = n.get('kind')
             if n['id'] in cas_calls:
-                idx, var = cas_calls[n['id']]
-                return [(own, (var, idx), ph)]
+                return [(own, (cas_calls[n['id']][1], cas_idx(n['id']), cas_calls[n['id']][2]), ph)]
+            if k == 'CXXMemberCallExpr':
+                cf = tu.callee_fn(n)
+                if cf is not None and cf.get('rec') == PIPE and tu.cfg(cf) is not None and depth[0] < 3 and \
+                        cf['q'].split('::')[-1] not in PUBLIC:
+                    # private helper: its slot operations are replayed at the call site (index parameters mapped)
+                    if any(tu.cfg(cf).where(c_) is not None and cas_calls[c_][2] is None for c_ in cas_calls):
+                        und.add('the private helper `%s` performs the claiming compare-and-swap in a form that is not recognised'
+                                % cf['q'].split('::')[-1])
+                    s_, obj, args = tu.call_parts(n)
+                    added = []
+                    for p_, a_ in zip(cf['params'], args):
+                        if irange(p_['ct']) is not None:
+                            ap = mpath(a_)
+                            if ap is not None:
+                                alias[param_path(p_)] = ap
+                                added.append(param_path(p_))
+                    depth[0] += 1
+                    try:
+                        res2 = tu.cfg(cf).explore([st], transfer, refine)
+                        outs = list({s2 for s2, via in res2.exits})
+                    except RuntimeError as e_:
+                        und.add(str(e_))
+                        outs = [st]
+                    depth[0] -= 1
+                    for a_ in added:
+                        alias.pop(a_, None)
+                    return outs or [st]
             if k == 'GCCAsmStmt' or (k == 'CallExpr' and tu.sd(n).get('q', '').split('::')[-1] in
                                      ('atomic_thread_fence', '__sync_synchronize', '_ReadWriteBarrier')):
                 return [(own, pend, 3 if ph == 2 else ph)]
             if k == 'ArraySubscriptExpr':
-                idx = member_index(tu, n, 'm_Buffer')
+                idx = midx(n, 'm_Buffer')
                 if idx is not None:
                     if own != idx:
                         probs.add(('buffer-unclaimed', 'm_Buffer[%s] is accessed on a path where the slot has not been claimed (%s): two threads '
@@ -2346,7 +2933,7 @@ def check_pipe_protocol(ctx, tu):
             elif k == 'CompoundAssignOperator':
                 tgt = tu.kids(n)[0]
             if tgt is not None:
-                fidx = member_index(tu, tgt, 'm_Flags')
+                fidx = midx(tgt, 'm_Flags')
                 if fidx is not None:
                     val = const_name(tu, tu.kids(n)[1]) if k == 'BinaryOperator' else None
                     want = 'FLAG_CAN_READ' if producer else 'FLAG_CAN_WRITE'
@@ -2360,7 +2947,7 @@ def check_pipe_protocol(ctx, tu):
                                    % (want, path_str(fidx), 'written' if producer else 'read',
                                       'read a stale partition' if producer else 'overwrite the partition before it is read')))
                     return [(own, pend, max(ph, 2))]
-                ap = access_path(tu, tgt)
+                ap = mpath(tgt)
                 if ap is not None and ap == ('this', 'm_WriteIndex'):
                     if ph == 2:
                         probs.add(('index-before-barrier', 'm_WriteIndex is updated after the flag store without a barrier in between: the index can '
@@ -2374,7 +2961,7 @@ def check_pipe_protocol(ctx, tu):
                     rhs = leaf(tu, tu.kids(n)[1]) if k == 'BinaryOperator' else None
                     if rhs is None or rhs.get('id') not in cas_calls:
                         return [(own, None, ph)]
-            if k == 'ReturnStmt' and tu.kids(n):
+            if k == 'ReturnStmt' and tu.kids(n) and depth[0] == 0:
                 v = const_value(tu, tu.kids(n)[0])
                 lv = leaf(tu, tu.kids(n)[0])
                 if lv is not None and lv.get('kind') == 'CXXBoolLiteralExpr':
@@ -2402,8 +2989,13 @@ def check_pipe_protocol(ctx, tu):
             kind, eq, idx, var = ci
             own, pend, ph = st
             success = (si == 0) == eq
+            if kind == 'boolvar':
+                if pend is None or pend[0] != var or pend[2] is None:
+                    return [st]
+                idx = pend[1]
+                success = ((si == 0) == eq) == pend[2]
             if kind == 'casvar':
-                if pend is None or pend[0] != var:
+                if pend is None or pend[0] != var or pend[2] is not None:
                     return [st]
                 idx = pend[1]
             if kind == 'cas' and (pend is None or pend[1] != idx):
@@ -2416,11 +3008,11 @@ def check_pipe_protocol(ctx, tu):
             g.explore([(None, None, 0)], transfer, refine)
         except RuntimeError as e:
             und.add(str(e))
-        if not producer and not cas_calls:
+        if not producer and not any(g.where(c_) is not None for c_ in cas_calls):
             probs.add(('no-cas', 'the reader never claims a slot with a compare-and-swap'))
         for u in sorted(und):
             ctx.undecided(R, inst, u, loc)
-        for k, t in sorted(probs):
+        for k, t in ([] if und else sorted(probs)):
             ctx.violation(R, inst, t, loc, key=key(k))
         if not probs and not und:
             ctx.ok(R, inst, 'claim -> buffer access -> flag hand-over%s on every successful path; nothing touched on failing paths'
@@ -2458,12 +3050,108 @@ class Ival:
         self.facts = []      # cmp atoms (rel, d) known to hold in the branch being evaluated
         self.wraps = []
         self.unknown = []
-        self.env = LinEnv(tu, on_read=self._subst)
+        self.pmap = {}       # parameter path of an inlined helper -> Lin of its argument (caller's terms)
+        self.env = LinEnv(tu, on_read=self._subst, on_call=self._call_lin)
 
     def _subst(self, p, n):
+        if p in self.pmap:
+            return self.pmap[p]
         if p in self.defs:
             return lin(self.tu, self.defs[p], self.env)
         return None
+
+    def _call_lin(self, c, env):
+        cf = inlinable(self.tu, c)
+        if cf is None:
+            return None
+        av = [lin(self.tu, a_, env) if irange(self.tu.sd(a_).get('ct')) is not None else None for a_ in self.tu.kids(c)[1:]]
+        return fn_value(self.tu, cf, av, env)
+
+    def branch(self, cond, ranges, want):
+        """(ranges refined for the branch on which `cond` is `want`, fact to push) ; ranges None = branch infeasible"""
+        tu = self.tu
+        rr = dict(ranges)
+        for p in list(rr):
+            tr = sign_truth(tu, cond, p)
+            if tr is None or rr[p] is None:
+                continue
+            lo, hi = rr[p]
+            segs = []
+            if want in tr['N'] and lo <= -1:
+                segs.append((lo, min(hi, -1)))
+            if want in tr['Z'] and lo <= 0 <= hi:
+                segs.append((0, 0))
+            if want in tr['P'] and hi >= 1:
+                segs.append((max(lo, 1), hi))
+            if not segs:
+                return None, None
+            rr[p] = (min(s_[0] for s_ in segs), max(s_[1] for s_ in segs))
+        ca = bool_atom(tu, cond, self.env)
+        if ca is not None and not want:
+            ca = negate_cmp(ca)
+        fact = (ca[1], ca[2]) if ca is not None and ca[1] in ('<', '<=') else None
+        return rr, fact
+
+    def ev_call(self, n, ranges):
+        """interval of the value returned by an inlinable loop-free helper; every node inside it is checked too"""
+        tu = self.tu
+        cf = inlinable(tu, n)
+        if cf is None:
+            return None
+        g = tu.cfg(cf)
+        if g.back_edges():
+            return None
+        args = tu.kids(n)[1:]
+        rr0 = dict(ranges)
+        saved = dict(self.pmap)
+        for p_, a_ in zip(cf['params'], args):
+            if irange(p_['ct']) is None:
+                continue
+            rr0[param_path(p_)] = self.ev(a_, ranges)
+            self.pmap[param_path(p_)] = lin(tu, a_, self.env)
+        outs = []
+        ok = [True]
+
+        def walk(bid, rr, seen):
+            if bid in seen or bid == g.exit:
+                return
+            blk = g.blocks[bid]
+            for e in blk.el:
+                if e[0] != 'S':
+                    continue
+                x = tu.node(e[1])
+                if x is None:
+                    continue
+                if x.get('kind') == 'ReturnStmt':
+                    ks_ = tu.kids(x)
+                    outs.append(self.ev(ks_[0], rr) if ks_ else None)
+                    return
+                if x.get('kind') in ('DeclStmt', 'CompoundAssignOperator') or \
+                        (x.get('kind') in ('BinaryOperator', 'UnaryOperator') and x.get('opcode') in ('=', '++', '--')):
+                    ok[0] = False
+            if blk.cond is not None and len(blk.succ) == 2:
+                self.ev(tu.node(blk.cond), rr)        # the condition's own arithmetic must not leave its type either
+                for si, su in enumerate(blk.succ):
+                    if su is None:
+                        continue
+                    r2, fact = self.branch(tu.node(blk.cond), rr, si == 0)
+                    if r2 is None:
+                        continue
+                    if fact:
+                        self.facts.append(fact)
+                    walk(su, r2, seen | {bid})
+                    if fact:
+                        self.facts.pop()
+            else:
+                for su in blk.succ:
+                    if su is not None:
+                        walk(su, rr, seen | {bid})
+        walk(g.entry, rr0, frozenset())
+        self.pmap = saved
+        outs_ = [o for o in outs if o is not None]
+        if not ok[0] or not outs_ or len(outs_) != len(outs):
+            return None
+        return (min(o[0] for o in outs_), max(o[1] for o in outs_))
 
     def fit(self, n, iv):
         r = irange(self.tu.sd(n).get('ct'))
@@ -2549,34 +3237,12 @@ class Ival:
         if k == 'ConditionalOperator':
             out = []
             for bi, br in ((0, ks[1]), (1, ks[2])):
-                rr = dict(ranges)
-                dead = False
-                for p in list(rr):
-                    tr = sign_truth(tu, ks[0], p)
-                    if tr is None:
-                        continue
-                    lo, hi = rr[p]
-                    want = (bi == 0)
-                    segs = []
-                    if want in tr['N'] and lo <= -1:
-                        segs.append((lo, min(hi, -1)))
-                    if want in tr['Z'] and lo <= 0 <= hi:
-                        segs.append((0, 0))
-                    if want in tr['P'] and hi >= 1:
-                        segs.append((max(lo, 1), hi))
-                    if not segs:
-                        dead = True
-                    else:
-                        rr[p] = (min(s[0] for s in segs), max(s[1] for s in segs))
-                if not dead:
-                    ca = bool_atom(tu, ks[0], self.env)
-                    if ca is not None and bi == 1:
-                        ca = negate_cmp(ca)
-                    pushed = ca is not None and ca[1] in ('<', '<=')
-                    if pushed:
-                        self.facts.append((ca[1], ca[2]))
+                rr, fact = self.branch(ks[0], ranges, bi == 0)
+                if rr is not None:
+                    if fact:
+                        self.facts.append(fact)
                     out.append(self.ev(br, rr))
-                    if pushed:
+                    if fact:
                         self.facts.pop()
             self.ev(ks[0], ranges)
             out = [o for o in out if o is not None]
@@ -2592,6 +3258,18 @@ class Ival:
         if k == 'UnaryOperator' and n.get('opcode') == '-' and ks:
             a = self.ev(ks[0], ranges)
             return None if a is None else self.fit(n, (-a[1], -a[0]))
+        if k == 'UnaryOperator' and n.get('opcode') == '!' and ks:
+            self.ev(ks[0], ranges)
+            return (0, 1)
+        if k == 'CXXBoolLiteralExpr':
+            return (1, 1) if n.get('value') else (0, 0)
+        if k == 'CallExpr':
+            iv = self.ev_call(n, ranges)
+            if iv is not None:
+                sp = self.special(lin(tu, n, self.env)) if self.special else None
+                if sp is not None:
+                    iv = (max(iv[0], sp[0]), min(iv[1], sp[1]))
+                return iv
         self.unknown.append(tu.show(n))
         return irange(tu.sd(n).get('ct'))
 
@@ -2727,21 +3405,49 @@ def check_blocks(ctx, tu, cfgname):
         if lamf is None or tu.cfg(lamf) is None or len(lamf['params']) != 1:
             ctx.undecided(R, inst, 'second argument of parallel_for is not a lambda taking the block index', loc)
             continue
-        exits, seen = count_paths(tu, g, {call['id']: 'pfor'}, ppath, signs_of_type(nct))
-        bad = [(k, t.replace('hands the range to the backend', 'calls parallel_for')) for k, t in once_verdict(exits)]
-        signs = ''.join(s_ for s_ in 'NZP' if s_ in seen.get(call['id'], ()))
         defs = local_defs(tu, [f, lamf])
+        env = make_env(tu, defs)
+        und = []
+
+        def truth_fn(cond):
+            """truth of a comparison per sign of n, by interval evaluation (locals and helpers followed)"""
+            c = leaf(tu, cond)
+            neg = False
+            while c is not None and c.get('kind') == 'UnaryOperator' and c.get('opcode') == '!':
+                neg = not neg
+                c = leaf(tu, tu.kids(c)[0])
+            if c is None or c.get('kind') != 'BinaryOperator' or c.get('opcode') not in ('<', '<=', '>', '>=', '==', '!='):
+                return None
+            out = {}
+            for sg in 'NZP':
+                lo_, hi_ = {'N': (rng[0], -1), 'Z': (0, 0), 'P': (1, M)}[sg]
+                if lo_ > hi_:
+                    out[sg] = {True, False}
+                    continue
+                iv_ = Ival(tu, {ppath: (lo_, hi_)}, defs, None)
+                a_, b_ = iv_.ev(tu.kids(c)[0]), iv_.ev(tu.kids(c)[1])
+                if a_ is None or b_ is None or iv_.unknown:
+                    return None
+                op = c['opcode']
+                if op in ('>', '>='):
+                    a_, b_ = b_, a_
+                    op = '<' if op == '>' else '<='
+                if op == '<':
+                    t = {True} if a_[1] < b_[0] else {False} if a_[0] >= b_[1] else {True, False}
+                elif op == '<=':
+                    t = {True} if a_[1] <= b_[0] else {False} if a_[0] > b_[1] else {True, False}
+                else:
+                    eq = {True} if a_[0] == a_[1] == b_[0] == b_[1] else {False} if (a_[1] < b_[0] or b_[1] < a_[0]) else {True, False}
+                    t = eq if op == '==' else {not x for x in eq}
+                out[sg] = {(not x) for x in t} if neg else t
+            return out
+        exits, seen = count_paths(tu, g, {call['id']: 'pfor'}, ppath, signs_of_type(nct), truth_fn)
+        bad = [(k, t.replace('hands the range to the backend', 'calls parallel_for')) for k, t in once_verdict(exits, und)]
+        signs = ''.join(s_ for s_ in 'NZP' if s_ in seen.get(call['id'], ()))
         N = Lin.atom(('p', ppath))
         bp = param_path(lamf['params'][0])
         Bl = Lin.atom(('p', bp))
-
-        def subst(p, n_):
-            if p in defs:
-                return lin(tu, defs[p], env)
-            return None
-        env = LinEnv(tu, on_read=subst)
         NB = lin(tu, args[0], env)
-        und = []
         cf = ceil_form(NB, N, B, signs, signed)
         if cf is None:
             und.append('block count `%r` is not a recognised form of ceil(n/B)' % NB)
@@ -2839,7 +3545,7 @@ def check_blocks(ctx, tu, cfgname):
             pass
         for u in sorted(set(und)):
             ctx.undecided(R, inst, u, loc)
-        for k, t in sorted(set(bad)):
+        for k, t in ([] if und else sorted(set(bad))):
             ctx.violation(R, inst, t, loc, key=key(k))
         if not und and not bad:
             ctx.ok(R, inst, 'numBlocks = %s, begin = b*%d, end = min(begin+%d, n); no intermediate leaves its type' % (cf[1], B, B), loc)
@@ -3079,7 +3785,7 @@ def check_foreach(ctx, tu, cfgname):
                                 'instantiated here for %s: elements beyond the first storage chunk are read out of bounds' % itype))
         for u in sorted(set(und)):
             ctx.undecided(R, inst, u, loc)
-        for k, t in sorted(set(bad)):
+        for k, t in ([] if und else sorted(set(bad))):
             ctx.violation(R, inst, t, loc, key=key(k))
         if not und and not bad:
             ctx.ok(R, inst, 'count = distance(begin, end); element i = begin[i]', loc)
@@ -3233,6 +3939,7 @@ def run(ctx):
     drv = dict(zip(configs, tus[:len(configs)]))
     tu_enki, tu_sys = tus[len(configs)], tus[len(configs) + 1]
 
+    summaries = task_fn_summaries(tu_sys)
     n_impl = {}
     n_pfor = 0
     n_blocks = 0
@@ -3251,7 +3958,7 @@ def run(ctx):
                 n_pfor += 1
                 check_forwarder(ctx, tu, f, c, IMPL, 'R-C01-1', 'parallel_for', 'detail::parallel_for_impl')
         if c == 'INTERNAL':
-            ib = check_internal(ctx, tu, chains)
+            ib = check_internal(ctx, tu, chains, summaries)
             n = finish_internal_chains(ctx, tu, chains, ib)
             ctx.floor('R-C01-3(internal count path)', n, 8, 'one composed count path per index type')
         n_blocks += check_blocks(ctx, tu, c)
@@ -3266,7 +3973,7 @@ def run(ctx):
     ctx.floor('R-C01-5(container)', n_fe[1], 4 * len(configs), 'container overload x configurations')
 
     # internal backend: library units
-    check_tasksys(ctx, tu_sys)
+    check_tasksys(ctx, tu_sys, summaries)
     check_add_task_set(ctx, tu_enki)
     check_wait_for_task(ctx, tu_enki)
     split_fn = check_split_task(ctx, tu_enki)
